@@ -106,6 +106,22 @@ pub fn is_positive_definite(m: &[f64]) -> bool {
     true
 }
 
+/// Checks whether a 1D array is an exactly symmetric matrix (no tolerance). The Cholesky route of
+/// the solvers reads only the lower triangle, so it may only be taken when the upper triangle
+/// carries no other information.
+#[inline(always)]
+fn is_exactly_symmetric(m: &[f64]) -> bool {
+    let n = is_square(m).unwrap();
+    for i in 0..n {
+        for j in (i + 1)..n {
+            if m[i * n + j] != m[j * n + i] {
+                return false;
+            }
+        }
+    }
+    true
+}
+
 /// Calculates the parity (sign) of a permutation given as a permutation vector `ipiv` (e.g. the
 /// pivots that you get as an output from `lu`).
 pub fn ipiv_parity(ipiv: &[i32]) -> i32 {
@@ -253,7 +269,7 @@ pub fn solve_sys(a: &[f64], b: &[f64]) -> Vec<f64> {
 
         // try the Cholesky route if the matrix looks positive definite, and
         // fall back to LU if it turns out not to be
-        let l = if is_positive_definite(a) {
+        let l = if is_positive_definite(a) && is_exactly_symmetric(a) {
             try_cholesky(a)
         } else {
             None
@@ -309,7 +325,7 @@ pub fn solve(a: &[f64], b: &[f64]) -> Vec<f64> {
     {
         // try the Cholesky route if the matrix looks positive definite, and
         // fall back to LU if it turns out not to be
-        let l = if is_positive_definite(a) {
+        let l = if is_positive_definite(a) && is_exactly_symmetric(a) {
             try_cholesky(a)
         } else {
             None
